@@ -106,3 +106,123 @@ func runC18Values(r *Run) {
 }
 
 func init() { customHandlers["c18values"] = c18ValWorker }
+
+// The same value-shape grid for C01 (write, read back, reopen, read back) and C15 (Merge in
+// between): every step of every history is judged against the reference model.
+
+type valJob struct {
+	Mode  int    `json:"mode"`
+	RW    int    `json:"rw"`
+	Prop  string `json:"prop"`
+	Merge bool   `json:"merge"`
+}
+
+func valWorker(arg json.RawMessage) interface{} {
+	var j valJob
+	json.Unmarshal(arg, &j)
+	out := &longOut{}
+	cfg := core.Cfg{Mode: j.Mode, RW: j.RW, Start: j.RW, Seg: 24576}
+	queries := mixedObsFor(cfg)
+	queries = append(queries, core.Call{F: "Get", B: bKV, K: "zb"}, core.Call{F: "Get", B: bKV, K: "zc"})
+	hists, names := c18ValHistories("")
+	seen := map[string]bool{}
+	for i, h := range hists {
+		ops := append([]core.Op(nil), h[:len(h)-1]...) // without the backup
+		if j.Merge {
+			ops = append(ops, core.Op{Kind: "merge"})
+		}
+		ops = append(ops, core.Op{Kind: "reopen"}, up(core.Call{F: "Put", B: bKV, K: "ab", V: "after"}), core.Op{Kind: "reopen"})
+		out.Histories++
+		in := core.OpenInst(cfg)
+		for si, op := range ops {
+			r := in.Apply(op)
+			out.Steps++
+			add := func(kind string, bad []core.Mismatch, detail string) {
+				v := eng.Violation{Prop: j.Prop, Kind: kind, Cfg: cfg, Ops: ops[:si+1], Tags: []string{"values"}, Extra: map[string]interface{}{"profile": "long"}}
+				for _, mm := range bad {
+					v.Atoms = append(v.Atoms, mm.Atom())
+					v.Detail = append(v.Detail, mm.String())
+				}
+				if len(v.Atoms) == 0 {
+					v.Atoms = []string{kind}
+				}
+				v.Atoms = uniq(v.Atoms)
+				v.What = v.Atoms[0]
+				v.Detail = append([]string{fmt.Sprintf("value-shape family %s, step %d %s: %s", names[i], si+1, op, detail)}, v.Detail...)
+				if k := kind + v.What; !seen[k] {
+					seen[k] = true
+					out.Viol = append(out.Viol, v)
+				}
+			}
+			if r.Panic != "" {
+				add("panic", nil, r.Panic)
+				break
+			}
+			if op.Kind == "reopen" && r.Err {
+				add("open-error", nil, r.Msg)
+				break
+			}
+			if op.Kind == "merge" {
+				if r.Err {
+					out.Merges++ // Merge refused (e.g. a single file): nothing to judge beyond the observation
+				} else {
+					out.MergeOK++
+				}
+			} else if len(r.Bad) > 0 || len(r.Notes) > 0 {
+				add("call-result", r.Bad, fmt.Sprint(r.Notes))
+				break
+			}
+			obs, err := in.Observe(queries)
+			if err != nil {
+				add("obs-failed", nil, err.Error())
+				break
+			}
+			out.Evals += len(obs)
+			if bad := core.CheckObs(in.Model, queries, obs); len(bad) > 0 {
+				kind := "obs-mismatch"
+				if j.Merge && si >= len(h)-1 {
+					kind = "merge-changed-reads"
+				}
+				add(kind, bad, "observation vs model")
+				break
+			}
+		}
+		in.Discard()
+		if out.Sample == "" {
+			out.Sample = fmt.Sprintf("%s: %s: %d steps", cfg, names[i], len(ops))
+		}
+	}
+	return out
+}
+
+// runValues runs the value-shape grid for a property (C01: plain; C15: with Merge).
+func runValues(r *Run, prop string, merge bool, modes []int) {
+	var args []interface{}
+	for _, m := range modes {
+		for _, rw := range []int{core.F, core.M} {
+			args = append(args, valJob{Mode: m, RW: rw, Prop: prop, Merge: merge})
+		}
+	}
+	r.Pool.ParallelCustom("values", args, func(i int, raw json.RawMessage, okk bool) {
+		var o longOut
+		if !okk || json.Unmarshal(raw, &o) != nil {
+			r.Col.Add(eng.Violation{Prop: prop, Kind: "hang", What: "values:worker-died", Atoms: []string{"values:worker-died"}, Detail: []string{fmt.Sprintf("value-shape job %+v hung or killed its worker", args[i])}})
+			return
+		}
+		r.Stats.Transitions += o.Steps
+		r.Stats.Evals += o.Evals
+		r.Stats.Extra["value_shape_histories"] += o.Histories
+		r.Stats.Extra["value_shape_merges_ok"] += o.MergeOK
+		for k := 0; k < o.Histories; k++ {
+			r.Stats.States[fmt.Sprintf("values%d/%d", i, k)] = true
+		}
+		if o.Sample != "" && len(r.Stats.Samples) < 10 {
+			r.Stats.Samples = append(r.Stats.Samples, "value-shape family "+o.Sample)
+		}
+		for _, v := range o.Viol {
+			r.Col.Add(v)
+		}
+	})
+}
+
+func init() { customHandlers["values"] = valWorker }
